@@ -37,7 +37,7 @@ def matchPerm : Nat → Bytes → List Bytes → Bool
 (any order is allowed) -/
 inductive Seg where
   | lit (t : Bytes)
-  | perm (entries : List (List Seg))
+  | perm (sep : Bytes) (entries : List (List Seg))   -- `sep` between consecutive entries
 
 /-- parse `marks` (kind, position) over `buf` starting at position `pos`.  Returns the segments up to
 the enclosing close / entry mark (or the end), the mark that stopped it, and the rest. -/
@@ -59,7 +59,7 @@ partial def parseSegs (buf : Bytes) (pos : Nat) (marks : List (Nat × Nat)) : Li
         | _ => (acc, pos, [])
       let (es, p2, r2) := entries p rest []
       let (after, stop, p3, r3) := parseSegs buf p2 r2
-      (before ++ [.perm es] ++ after, stop, p3, r3)
+      (before ++ [.perm [] es] ++ after, stop, p3, r3)
     else (before, k, p, rest)
 
 mutual
@@ -68,15 +68,21 @@ partial def matchSegs (segs : List Seg) (target : Bytes) : List Bytes :=
   match segs with
   | [] => [target]
   | .lit t :: rest => if t.isPrefixOf target then matchSegs rest (target.drop t.length) else []
-  | .perm es :: rest => (matchPermSegs es target).flatMap fun r => matchSegs rest r
-partial def matchPermSegs (es : List (List Seg)) (target : Bytes) : List Bytes :=
+  | .perm sep es :: rest => (matchPermSegs sep true es target).flatMap fun r => matchSegs rest r
+partial def matchPermSegs (sep : Bytes) (first : Bool) (es : List (List Seg)) (target : Bytes) : List Bytes :=
   match es with
   | [] => [target]
   | _ =>
-    ((List.range es.length).flatMap fun i =>
-      match es[i]? with
-      | some e => (matchSegs e target).flatMap fun r => matchPermSegs (es.eraseIdx i) r
-      | none => []).eraseDups
+    let target? : Option Bytes :=
+      if first || sep.isEmpty then some target
+      else if sep.isPrefixOf target then some (target.drop sep.length) else none
+    match target? with
+    | none => []
+    | some target =>
+      ((List.range es.length).flatMap fun i =>
+        match es[i]? with
+        | some e => (matchSegs e target).flatMap fun r => matchPermSegs sep false (es.eraseIdx i) r
+        | none => []).eraseDups
 end
 
 /-- does the model allow this error (`none` = nil) for some iteration order of the maps and some
